@@ -119,6 +119,18 @@ def generate():
     finally:
         if os.path.exists(exe9):
             os.unlink(exe9)
+    # nesting limits and streams
+    exe10 = os.path.join(CACHE, "dump_depth_stream.%d" % os.getpid())
+    try:
+        subprocess.run(["g++", "-std=gnu++17", "-O0", "-I" + REPO + "/src", os.path.join(ROOT, "harness", "dump_depth_stream.cpp"), "-o", exe10],
+                       check=True, stdout=subprocess.PIPE, stderr=subprocess.PIPE, text=True)
+        dsrows = {}
+        for line in run([exe10]).splitlines():
+            k, _, v = line.partition(" ")
+            dsrows[k] = v.split()
+    finally:
+        if os.path.exists(exe10):
+            os.unlink(exe10)
     vals = {}
     for line in dump.splitlines():
         k, _, v = line.partition(" ")
@@ -197,6 +209,13 @@ def generate():
     L.append("/-- (JSON text of a string with \\u escapes, code 0 = Ok 2 = IncompleteInput 3 = InvalidInput, 1 if the result is a string, its bytes) -/")
     L.append("def unicode_rows : List (List Nat × Nat × Nat × List Nat) := [%s]" % ", ".join(
         "(%s, %s, %s, %s)" % (hexl(e.split(":")[0]), e.split(":")[1], e.split(":")[2], hexl(e.split(":")[3])) for e in unirows["unicode_rows"]))
+    L.append("/-- k nested arrays around the number 1 read with nesting limit L: (k, L, JSON code, serializeJson of the document left, MessagePack code, serializeJson of the document left) -/")
+    L.append("def depth_rows : List (Nat × Nat × Nat × List Nat × Nat × List Nat) := [%s]" % ", ".join(
+        "(%s, %s, %s, %s, %s, %s)" % (f_[0], f_[1], f_[2], hexl(f_[3]), f_[4], hexl(f_[5])) for f_ in (e.split(":") for e in dsrows["depth_rows"])))
+    def calls(cs):
+        return "[" + ", ".join("(%s, %s)" % (c.split(".")[0], hexl(c.split(".")[1])) for c in cs.split(",")) + "]"
+    L.append("/-- a stream of documents read by successive deserializeJson calls on one reader: (text, per call (code, serializeJson of the document)) -/")
+    L.append("def stream_rows : List (List Nat × List (Nat × List Nat)) := [%s]" % ", ".join("(%s, %s)" % (hexl(e.split(":")[0]), calls(e.split(":")[1])) for e in dsrows["stream_rows"]))
     for k in sorted(jsonfirst):
         L.append("/-- deserializeJson on a first byte and a fixed tail (alone: nothing; elem: `1]`; key: `\":1}x`), nesting limit 10; plain = default build, ext = comments, NaN and Infinity enabled: (first byte, code, bytes consumed, serializeJson of the document left) -/")
         L.append("def %s : List (Nat × Nat × Nat × List Nat) := [%s]" % (k, ", ".join(mprow(e) for e in jsonfirst[k])))
